@@ -152,11 +152,17 @@ class ExternalVariableCollector(NodeVisitor):
         self.used -= self.funcnames
 
     def visit_FunctionDef(self, node):
-        self.funcnames.add(node.name)
-        self.generic_visit(node)
+        self._defines(node)
 
     def visit_ClassDef(self, node):
         # Like a nested function, a class statement binds its name locally
+        self._defines(node)
+
+    def _defines(self, node):
+        if self.funcnames:
+            # Not the function being analyzed itself: the statement binds
+            # a local variable of that function
+            self._bound_in_body(node.name)
         self.funcnames.add(node.name)
         self.generic_visit(node)
 
